@@ -69,8 +69,19 @@ Section Build.
              end
     end.
 
-  (* hand queued paths to idle workers until some worker holds p, then let it call AcceptFile *)
-  Fixpoint start_path (fuel : nat) (p : N) (s : st) (acc : list label) : option (list label * st) :=
+  (* does AcceptFile(p) show up in the rest of the trace? *)
+  Fixpoint starts_later (p : N) (trace : list event) : bool :=
+    match trace with
+    | [] => false
+    | EStart q :: rest => (p =? q)%N || starts_later p rest
+    | EDone _ :: rest => starts_later p rest
+    end.
+
+  (* hand queued paths to idle workers until some worker holds p, then let it call AcceptFile.
+     A worker calls AcceptFile on every path it receives, so a queued path in front of p whose
+     AcceptFile call is never observed ([later] = the rest of the trace) was not sent: the walker
+     dropped it (LWalkerCancel, possible only once the group context is canceled) *)
+  Fixpoint start_path (fuel : nat) (p : N) (later : list event) (s : st) (acc : list label) : option (list label * st) :=
     match find_w (is_got p) (ws s) 0 with
     | Some i => match fire sel parse add_ok (LStart i) s with
                 | Some s' => Some (LStart i :: acc, s')
@@ -79,27 +90,45 @@ Section Build.
     | None =>
         match fuel with
         | O => None
-        | S k => match find_w is_idle (ws s) 0 with
-                 | Some i => match fire sel parse add_ok (LHand i) s with
-                             | Some s' => start_path k p s' (LHand i :: acc)
-                             | None => None
-                             end
-                 | None => None
-                 end
+        | S k =>
+            match queue s with
+            | [] => None
+            | q :: _ =>
+                if (q =? p)%N || starts_later q later then
+                  match find_w is_idle (ws s) 0 with
+                  | Some i => match fire sel parse add_ok (LHand i) s with
+                              | Some s' => start_path k p later s' (LHand i :: acc)
+                              | None => None
+                              end
+                  | None => None
+                  end
+                else
+                  match fire sel parse add_ok LWalkerCancel s with
+                  | Some s' => start_path k p later s' (LWalkerCancel :: acc)
+                  | None => None
+                  end
+            end
         end
+    end.
+
+  (* end of the trace: paths still queued were never handed out; the walker drops them one by one
+     (when it may) and everything else runs to completion *)
+  Fixpoint drop_rest (fuel : nat) (s : st) (acc : list label) : list label * st :=
+    let '(acc1, s1) := saturate (measure s) s acc in
+    match fuel with
+    | O => (acc1, s1)
+    | S k => match fire sel parse add_ok LWalkerCancel s1 with
+             | Some s2 => drop_rest k s2 (LWalkerCancel :: acc1)
+             | None => (acc1, s1)
+             end
     end.
 
   Fixpoint build (trace : list event) (s : st) (acc : list label) : option (list label * st) :=
     match trace with
-    | [] =>
-        let '(acc1, s1) := saturate (measure s) s acc in
-        match fire sel parse add_ok LWalkerCancel s1 with
-        | Some s2 => Some (saturate (measure s2) s2 (LWalkerCancel :: acc1))
-        | None => Some (acc1, s1)
-        end
+    | [] => Some (drop_rest (length (queue s)) s acc)
     | EStart p :: rest =>
         let '(acc1, s1) := saturate (measure s) s acc in
-        match start_path (S (length (queue s1))) p s1 acc1 with
+        match start_path (S (length (queue s1))) p rest s1 acc1 with
         | Some (acc2, s2) => build rest s2 acc2
         | None => None
         end
